@@ -18,7 +18,7 @@ import random
 
 import vlib
 
-MODES = {"BacktrackMode": "table", "ScoreMode": "nodes"}   # transcription of the current code
+MODES = {"BacktrackMode": "table", "ScoreMode": "nodes2"}   # transcription of the current code
 
 
 def _cfg(name, spec, universe, emit, maxedits, invs):
